@@ -33,7 +33,7 @@ BUILT["C24"] = ("E1", "exploration", "deterministic simulation: real mplex / yam
 BUILT["C25"] = ("E1", "fault_enumeration", "deterministic simulation: real mplex endpoint against a scripted raw peer with a reference codec; every split offset enumerated inside a run, hostile frames enumerated",
   "Outbound: each local operation must appear as the reference frame with the initiator flags; inbound: every frame kind x id magnitudes x sizes under all split offsets must have exactly its effect (role mirrored: receiver-flag frames reach locally opened streams, initiator-flag frames do not); hostile: length 1MiB+1 without payload, type 7, over-long varints must fail at once, 1 MiB exactly must not",
   "reference codec written from the mplex spec; effects observed through the public StreamMuxer/Substream API (no codec hook needed)", "5/C25")
-BUILT["C26"] = ("E1", "exploration", "deterministic simulation: flooding raw peer, schedule-paused local readers, both MaxBufferBehaviours; limit invariants after every step",
+BUILT["C26"] = ("E1", "exploration", "deterministic simulation: flooding raw peer, schedule-paused local readers, both MaxBufferBehaviours, limits hit while the muxer's own writes are back-pressured; limit invariants after every step",
   "Invariant after every step: substreams handed out and not dropped <= max_substreams whatever the peer sends (incl. repeated Reset/Close); excess Opens answered by Reset; Block: at most max_buffer_len+1 frames taken for a paused reader and no frame lost or reordered after resume; ResetStream: overflowing stream reset and its reads end",
   "frames taken by the real side are measured as bytes consumed from the pipe with one frame delivered per quiescence point", "5/C26")
 BUILT["C16"] = ("E1", "fault_enumeration", "deterministic simulation with adversary fault enumeration: frame-aware man-in-the-middle (every byte flip, truncation, drop, duplicate, cross-session replacement) and a byzantine endpoint running the real handshake with a spliced identity; ground-truth identity oracle",
@@ -76,7 +76,7 @@ BUILT["C04"] = ("E2", "exploration", "deterministic simulation: real Swarm::dial
 BUILT["C05"] = ("E2", "fault_enumeration", "deterministic simulation with identity faults enumerated: the stub transport authenticates each side of each connection as expected / other / local peer",
   "All 9 (dialer-side x listener-side) authentication combinations x (expected peer given or not), interleaved with ordinary traffic: established only when the id matches the expectation and is not local, else WrongPeerId / LocalPeerId, and the refused muxer is closed via poll_close",
   E2_NOTE, "5/C05")
-BUILT["C07"] = ("E2", "exploration", "deterministic simulation: numbered NotifyHandler::One/Any emissions from any composite field against starved connection tasks (back-pressure), racing closes and resets; history check at quiescence",
+BUILT["C07"] = ("E2", "exploration", "deterministic simulation: numbered NotifyHandler::One/Any emissions from any composite field against starved connection tasks (back-pressure in both directions: echo bursts fill the handler-event channel too), racing closes and resets; history check at quiescence",
   "Targeting (connection and field), at-most-once, per-handler order, Any only to a connection established at emission (snapshot rebuilt from the event history), loss only when the target (some snapshot member for Any) was closed or commanded to close",
   E2_NOTE, "5/C07")
 BUILT["C08"] = ("E2", "exploration", "deterministic simulation: every transport dial future completes only when the simulator says so, in a drawn order with drawn outcomes; in-flight counter checked after every scheduler step",
@@ -85,7 +85,7 @@ BUILT["C08"] = ("E2", "exploration", "deterministic simulation: every transport 
 BUILT["C09"] = ("E2", "exploration", "deterministic simulation with virtual clock: smart-dial start times observed on a recording transport whose dials all hang; reference group classifier",
   "Address multisets over private/public IPv4/IPv6, localhost and other DNS names, relay, QUIC/TCP/WebTransport/WebRTC-direct and ports; oracle on the virtual times at which each transport dial is first polled: complete permutation with finite delays, last group never strictly before an earlier group, QUIC no later than TCP within a group",
   E2_NOTE + "; observed through the public Swarm path and timers (no hook, rank_dials itself is not called by the harness)", "5/C09")
-BUILT["C10"] = ("E2", "exploration", "deterministic simulation with virtual clock: keep-alive flips, held / ignored / dropped streams and clock advances placed around the idle timeout; busy timeline reconstructed from the handlers' own logs",
+BUILT["C10"] = ("E2", "exploration", "deterministic simulation with virtual clock: keep-alive flips, held / half-closed / ignored / dropped streams and clock advances placed around the idle timeout; busy timeline reconstructed from the handlers' own logs",
   "At every KeepAliveTimeout close: side not busy at the close decision, decision no earlier than last-busy instant + idle_timeout (timeouts 0, 50 ms, 5 s, 60 s); liveness: once idle and past the timeout the connection is closed with KeepAliveTimeout",
   E2_NOTE, "5/C10")
 BUILT["C11"] = ("E2", "exploration", "deterministic simulation: advertised-protocol list histories (duplicates across composite fields, invalid names) and overlapping remote add/remove reports; fold of notifications compared at quiescence points",
